@@ -123,7 +123,27 @@ DIRECTED = [
 ]
 
 
+# rule sets whose patterns PRINT alike but are different patterns: a string / a character / a number against the identifier or the
+# string of the same spelling (a pattern is its data, not its printed form): each is a rule of its own
+TWINS = [
+    [('("x")', "(str)"), ("(a)", "(other a)")],
+    [("(1 a)", "(int a)"), ('("1" a)', "(str a)")],
+    [('(#t a)', "(tru a)"), ('("#t" a)', "(str a)")],
+    [('(#("s" a))', "(vs a)"), ("(#(s a))", "(vv s a)")],
+    [("(1/2)", "(ratio)"), ("(0.5)", "(real)"), ('("1/2")', "(str)")],
+]
+TWIN_USES = ['(m "x")', "(m x)", "(m 5)", "(m 1 2)", '(m "1" 2)', "(m (q 1))", "(m #t 3)", '(m "#t" 3)', '(m #("s" 4))', "(m #(7 4))",
+             "(m 1/2)", "(m 0.5)", '(m "1/2")', "(m (a 1))"]
+
+
 def gen_case(rng):
+    if rng.random() < 0.06:
+        rs = rng.choice(TWINS)
+        if rng.random() < 0.5:
+            rs = list(reversed(rs))
+        defs = "(define-syntax m (syntax-rules (k) %s))" % " ".join("((m %s %s)" % (p[1:], t) for p, t in rs)
+        gen_case.quoted = "(define-syntax m (syntax-rules (k) %s))" % " ".join("((m %s (quote %s))" % (p[1:], t) for p, t in rs)
+        return defs, rng.choice(TWIN_USES)
     nrules = rng.randrange(1, 4)
     rules, rules_q = [], []
     pats = []
